@@ -7,6 +7,7 @@ import SeqVerif.Model.FetchFracs
 import SeqVerif.Model.FetchStream
 import SeqVerif.Model.FetchBytes
 import SeqVerif.Model.FetchActive
+import SeqVerif.Model.FetchRange
 import SeqVerif.Extracted.C04
 /-!
 # C04 - fetch returns each stored document verbatim; unknown IDs are just "not found"
@@ -211,6 +212,21 @@ theorem c04_cache_key_collision_witness :
     cachedRead (fun k => if k = 0 then some [1] else none) (fun o => if o = 0 then [1] else [2]) 4294967296 = [1] :=
   cachedRead_collision_witness
 
+/-- **the time range of an active fraction covers every ID it stores, also after a partly retried bulk**: `Filter`
+recomputes `MinMID` / `MaxMID` over the IDs that were really appended - in whatever order the bulk lists them, one
+new document or many - and `UpdateStats` widens `[From, To]` with them without uncovering anything; this is the
+`contains` / `intersects` hypothesis of `FracWF` for the IDs of that bulk. -/
+theorem c04_range_covers_appended (range : Nat × Nat) (ids appended : List ID) :
+    (∀ i, i ∈ ids → i ∈ appended →
+      (updateStats range (filterStats ids appended)).1 ≤ i.mid ∧ i.mid ≤ (updateStats range (filterStats ids appended)).2) ∧
+    (∀ m, range.1 ≤ m → m ≤ range.2 →
+      (updateStats range (filterStats ids appended)).1 ≤ m ∧ m ≤ (updateStats range (filterStats ids appended)).2) :=
+  updateStats_covers range ids appended
+
+theorem c04_filter_stats_cover (ids appended : List ID) (i : ID) (hi : i ∈ ids) (ha : i ∈ appended) :
+    (filterStats ids appended).1 ≤ i.mid ∧ i.mid ≤ (filterStats ids appended).2 :=
+  filterStats_covers ids appended i hi ha
+
 /-! ## The definitions as first written, and why the property failed on them -/
 
 /-- before the repair, two absent IDs next to a 2-byte document divide by zero (process dies) -/
@@ -281,6 +297,20 @@ theorem c04_x_sortIDs_shape :
     sortIDsStmts = ["last := len(idsOrig) - 1", "ids := append(seq.IDSources{}, idsOrig...)",
       "if seq.Less(ids[0].ID, ids[last].ID)", "sort.Sort(ids)", "return ids, ids[0].ID.MID, ids[last].ID.MID",
       "sort.Sort(sort.Reverse(ids))", "return ids, ids[last].ID.MID, ids[0].ID.MID"] := by decide
+
+/-- `Filter` compares every appended ID with the minimum AND with the maximum (two independent `if`s), and
+`UpdateStats` widens both ends - the shape `filterStats` / `updateStats` model -/
+theorem c04_x_range_update_shape :
+    filterMinMaxStmts = ["if id.MID < c.MinMID { c.MinMID = id.MID }", "if id.MID > c.MaxMID { c.MaxMID = id.MID }"] ∧
+    updateStatsStmts = ["if f.info.From > minMID { f.info.From = minMID }", "if f.info.To < maxMID { f.info.To = maxMID }"] := by
+  decide
+
+/-- the pooled field filter carries no state from one fetch to the next: `acquire` overwrites the request's filter
+unconditionally and `release` clears it (a fetch without `FieldsFilter` answers the stored bytes) -/
+theorem c04_x_filter_state_per_request :
+    acquireFilterStmts = ["dp := docFieldsFilterPool.Get().(*docFieldsFilter)",
+      "if dp.decoder == nil { dp.decoder = insaneJSON.Spawn() }", "dp.filter = filter", "return dp"] ∧
+    releaseFilterStmts = ["dp.filter = nil", "docFieldsFilterPool.Put(dp)"] := by decide
 
 /-- position packing at the extracted `docOffsetBits`: every (block, offset) the writer can produce is read back,
 and never collides with `DocPosNotFound` -/
@@ -361,6 +391,9 @@ example :
   exact (c04_active_fetch_verbatim 30 st0 0 [] [97, 98] (encDoc [99]) [(⟨7, 1⟩, 0), (⟨7, 2⟩, 6)] [] [(⟨7, 2⟩, 6)] ⟨7, 1⟩
     rfl rfl (by simp) (by decide) (by decide) (by decide) (by decide) st2
     (c04_active_append_extends 30 st1 11 (encDoc [100]) [(⟨8, 1⟩, 0)] (by decide)) 0).2.2
+
+/-- a retried bulk [9:1 (new), 8:1 (new), 5:1 (already stored)], newest first: the range is raised to 9 -/
+example : filterStats [⟨9, 1⟩, ⟨8, 1⟩, ⟨5, 1⟩] [⟨9, 1⟩, ⟨8, 1⟩] = (8, 9) ∧ updateStats (3, 5) (8, 9) = (3, 9) := by decide
 
 example : Desc [⟨100, 100⟩, ⟨5, 9⟩, ⟨5, 7⟩, ⟨3, 3⟩] := by decide
 example : findLIDsFixed [⟨100, 100⟩, ⟨5, 9⟩, ⟨5, 7⟩, ⟨3, 3⟩] [⟨5, 7⟩, ⟨5, 8⟩, ⟨3, 2⟩, ⟨9, 9⟩] = some [2, 0, 0, 0] := by
